@@ -31,9 +31,10 @@ package sigagg
 //@ callreq sub: forallk(pk, set, has(output, pk) && a.verifyFunc(ctx, pk, output[pk]) == nil)
 //@ callreq sub: forallk(pk, output, has(set, pk) && has(a3, pk) && a3[pk] == res(0, output[pk].Clone()))
 //@ callreq sub: a2 == duty
+//@ callreq sub: a3 == cloned && ncalls(output.Clone) == ncalls(sub) + 1
 //@ ensures len(set) == 0 ==> result != nil && ncalls(sub) == 0
 //@ canary result != nil
 //@ loop 1 invariant forall(t, 0, $i, has(output, $ks[t]) && a.verifyFunc(ctx, $ks[t], output[$ks[t]]) == nil)
 //@ loop 1 invariant forallk(pk, output, exists(t, 0, $i, $ks[t] == pk))
 //@ loop 1 invariant ncalls(sub) == 0
-//@ loop 2 invariant true
+//@ loop 2 invariant ncalls(output.Clone) == ncalls(sub)
